@@ -32,6 +32,14 @@ type HostStruct struct {
 	A [2]int64
 }
 
+// HostBox is the type of hbox, a Go struct the host binds by pointer whose fields hold a slice, a
+// slice of strings and a map (gen_ctlvals.go).
+type HostBox struct {
+	Row   []int64
+	Items []string
+	M     map[string]int64
+}
+
 // NewHost builds a fresh environment with the probe functions.
 func NewHost() *Host {
 	h := &Host{Env: env.NewEnv()}
@@ -91,6 +99,7 @@ func NewHost() *Host {
 	h.Env.Define("hnilptrs", []*int64{nil, nil, nil})
 	// hst: a pointer to a Go struct (fields are assignable through it)
 	h.Env.Define("hst", &HostStruct{F: 7, S: "g", A: [2]int64{1, 2}})
+	h.Env.Define("hbox", &HostBox{Row: []int64{1, 2}, Items: []string{"a", "b"}, M: map[string]int64{"a": 1}})
 	h.Env.Define("gch", func(v interface{}) interface{} {
 		ch := make(chan interface{}, 1)
 		ch <- v
